@@ -125,11 +125,15 @@ theorem yieldItem_wsnaps (c : Cfg) (s : State) (r : Res) (b : Nat) (hio : c.inOr
     (yieldItem c s r b).1.wsnaps = applyDelta s.wsnaps r.w r.st := by
   unfold yieldItem
   dsimp only
+  have hd := snapshotDue_eq c { s with lastW := r.w, wsnaps := applyDelta s.wsnaps r.w r.st }
+  generalize snapshotDue c { s with lastW := r.w, wsnaps := applyDelta s.wsnaps r.w r.st } = d at hd
   split
-  · rcases takeSnapshot_cases c { s with lastW := r.w, wsnaps := applyDelta s.wsnaps r.w r.st } hio with ht | ⟨e, rest, ht⟩
-    · rw [ht]
-    · rw [ht]
   · rfl
+  · split
+    · rcases takeSnapshot_cases c d.1 hio with ht | ⟨e, rest, ht⟩
+      · rw [ht]; simp only; rw [hd]
+      · rw [ht]; simp only; rw [hd]
+    · simp only; rw [hd]
 
 theorem stOf_err (c : Cfg) (idx : Nat) (h : c.batches[idx]? = some .err) : stOf c idx = none := by
   simp [stOf, h]
